@@ -562,7 +562,7 @@ def emit_fn(b, out, meta, unit_rw, unit_name):
     meta['rewrites'] += nrw
     newname = b.d['as'] or name
     # the type the function belongs to: after ` for ` in a trait impl, else after `impl<..>`
-    cs = ctx.split(' for ', 1)[1] if ' for ' in ctx else re.sub(r'^\s*impl\s*(<[^>]*>)?\s*', '', ctx)
+    cs = ctx.split(' for ', 1)[1] if ' for ' in ctx else re.sub(r'^\s*(pub\s+)?(impl|trait)\s*(<[^>]*>)?\s*', '', ctx)
     qm = re.match(r'\s*&?\s*([A-Za-z_]\w*)', cs)
     qual = (qm.group(1) + '::') if (qm and ctx not in ('-', '')) else ''
     if b.d['sig']:
